@@ -358,7 +358,7 @@ fn c10_relation(name: &str, left: &str, right: &str, sig: &str) -> Option<Value>
 
 fn c10_eval(words: &[u32], exclude: &[String], stats: Option<&mut Report>) -> Option<Value> {
     let item = c10_item(words);
-    let serde_on = cfg!(feature = "serde-compat");
+    let serde_on = serde_requested();
     let w = |k: usize| words.get(200 + k).copied().unwrap_or(0);
     let plain = |spelling| Mode { spelling, split_lists: false, serde_first: false, junk: None, trailing_comma: false };
     let (src_serde, _, _, positions) = c10_render(&item, &plain(Spelling::Serde));
